@@ -8,7 +8,7 @@
 From Coq Require Import ZArith List Bool Lia ZifyBool.
 From V Require Import Base.Int Base.IntLemmas Base.IO Base.Utf8 Model.Scan Model.Items Gen.ParseTable Gen.Strftime
   Proofs.Utf8 Proofs.Scan Model.Parse Proofs.C13 Proofs.C13Reads Proofs.C13Fmt Proofs.C13Digits Proofs.C13Time
-  Proofs.C13Date Proofs.C13View Proofs.C13DateTime Proofs.C13DateForms Proofs.C13TimeForms Proofs.C13General Spec.StrftimeDoc Spec.Gregorian.
+  Proofs.C13Date Proofs.C13View Proofs.C13DateTime Proofs.C13DateForms Proofs.C13TimeForms Proofs.C13Zoned Proofs.C13General Spec.StrftimeDoc Spec.Gregorian.
 From V Require Model.Parsed Model.Format Model.Date Model.Time Model.DateTime Model.Strftime Proofs.C12 Proofs.C12View
   Proofs.C14 Proofs.C14Date Proofs.C14Iso Proofs.C08Sweeps Proofs.C08 Proofs.C08Days Proofs.DateIso.
 Import ListNotations.
@@ -101,7 +101,7 @@ Lemma num_accept sv f p t rest : sv_bounds sv -> num_static f = true ->
   (num_full f p = true \/ not_digit_start rest = true) ->
   exists wr, reads_numeric (Proofs.C12.numeric_of f) t rest = Some wr.
 Proof.
-  intros [Bd Bt Bn] Hst Hr Hv Hf. unfold render_num in Hr.
+  intros [Bd Bt Bn Bo] Hst Hr Hv Hf. unfold render_num in Hr.
   destruct (negb (width_documented f p)); [discriminate Hr|].
   destruct (num_value sv f) as [x| |] eqn:Hnv; try discriminate Hr. apply ROk_inj in Hr. subst t.
   pose proof (numeric_table (Proofs.C12.numeric_of f)) as He.
@@ -192,7 +192,7 @@ Qed.
 Lemma fix_facts sv f t : sv_bounds sv -> tfield_supported f = true -> render_fix sv f = ROk t ->
   ascii_b t /\ head_ok (fix_empty f) (fix_digit f) false (fix_dot f) t.
 Proof.
-  intros [Bd Bt Bn] Hsup Hr. unfold render_fix in Hr.
+  intros [Bd Bt Bn Bo] Hsup Hr. unfold render_fix in Hr.
   destruct f; try discriminate Hsup.
   - destruct (sv_dn sv) as [dn|] eqn:Ed; [|discriminate Hr]. destruct (Bd dn eq_refl) as (_ & _ & B3 & _). unfold dn_month in B3.
     destruct (ymd_of_dn dn) as [[yy m] dd] eqn:Eymd. cbn [fst snd] in B3. apply ROk_inj in Hr. subst t.
@@ -238,15 +238,26 @@ Proof.
     + rewrite frac_digits_pad. split; [apply pad_num_ascii|].
       destruct (pad0_head digits (n / 10 ^ (9 - digits)) ltac:(lia) (frac_x_bounds n digits Bn ltac:(lia))) as (c & r & -> & Hc).
       pose proof (digit_range c Hc). cbn. split; [lia|]. split; [reflexivity|]. split; [unfold is_whitespace; lia|lia].
+  - (* Off *)
+    destruct (sv_off sv) as [o|] eqn:Eo; [|discriminate Hr]. apply ROk_inj in Hr. subst t.
+    rewrite Proofs.C12.offset_text_unfold. cbv zeta. cbn [Z.eqb app]. unfold Proofs.C12.off_sign. split.
+    + constructor; [destruct (o <? 0); lia|]. apply ascii_app; apply pad_num_ascii.
+    + cbn [head_ok]. destruct (o <? 0); (split; [lia|]); repeat split; intros Hc; try discriminate Hc.
+  - (* OffColon *)
+    destruct (sv_off sv) as [o|] eqn:Eo; [|discriminate Hr]. apply ROk_inj in Hr. subst t.
+    rewrite Proofs.C12.offset_text_unfold. cbv zeta. cbn [Z.eqb app]. unfold Proofs.C12.off_sign. split.
+    + constructor; [destruct (o <? 0); lia|]. apply ascii_app; [apply pad_num_ascii|]. constructor; [lia|apply pad_num_ascii].
+    + cbn [head_ok]. destruct (o <? 0); (split; [lia|]); repeat split; intros Hc; try discriminate Hc.
 Qed.
 
-Lemma fix_accept sv f t rest : sv_bounds sv -> tfield_supported f = true -> render_fix sv f = ROk t ->
+Lemma fix_accept sv f t rest : sv_bounds sv -> (forall o, sv_off sv = Some o -> o mod 60 = 0) ->
+  tfield_supported f = true -> render_fix sv f = ROk t ->
   utf8_valid rest = true ->
   (fix_need_nondigit f = true -> not_digit_start rest = true) ->
   (fix_need_nodot f = true -> starts_with_byte rest 46 = false) ->
   exists wr, reads_fixed (Proofs.C12.fixed_of f) t rest = Some wr.
 Proof.
-  intros [Bd Bt Bn] Hsup Hr Hv Hnd Hdot. pose proof (utf8_valid_starts_ok rest Hv) as Hso. unfold render_fix in Hr.
+  intros [Bd Bt Bn Bo] Hmin Hsup Hr Hv Hnd Hdot. pose proof (utf8_valid_starts_ok rest Hv) as Hso. unfold render_fix in Hr.
   destruct f; try discriminate Hsup; cbn [Proofs.C12.fixed_of].
   - destruct (sv_dn sv) as [dn|] eqn:Ed; [|discriminate Hr]. destruct (Bd dn eq_refl) as (_ & _ & B3 & _). unfold dn_month in B3.
     destruct (ymd_of_dn dn) as [[yy m] dd] eqn:Eymd. cbn [fst snd] in B3. apply ROk_inj in Hr. subst t.
@@ -287,6 +298,12 @@ Proof.
       destruct Hk as [->|[->| ->]]; eexists; cbn [Z.eqb Pos.eqb reads_fixed]; unfold all_dig; rewrite Hd, Hl, Hnd, Hv; reflexivity.
     + destruct Hk as [->|[->| ->]]; eexists; cbn [Z.eqb Pos.eqb reads_fixed fixed_idx internal_idx zassoc P_NODOT];
         unfold all_dig; rewrite Hd, Hl, Hv; reflexivity.
+  - destruct (sv_off sv) as [o|] eqn:Eo; [|discriminate Hr]. apply ROk_inj in Hr. subst t.
+    change F_TimezoneOffset with (off_item false). rewrite (offset_reads_eq false o rest (Bo o eq_refl) (Hmin o eq_refl)), Hv.
+    eexists. reflexivity.
+  - destruct (sv_off sv) as [o|] eqn:Eo; [|discriminate Hr]. apply ROk_inj in Hr. subst t.
+    change F_TimezoneOffsetColon with (off_item true). rewrite (offset_reads_eq true o rest (Bo o eq_refl) (Hmin o eq_refl)), Hv.
+    eexists. reflexivity.
 Qed.
 
 (** * 4. the static class of item lists and acceptance for every value *)
@@ -432,11 +449,12 @@ Lemma bytes_eqb_refl l : bytes_eqb l l = true.
 Proof. induction l as [|c r IH]; [reflexivity|]. cbn [bytes_eqb]. rewrite Z.eqb_refl, IH. reflexivity. Qed.
 
 (** for EVERY value: the documented renderings of a list of the class are taken back by the reader *)
-Theorem static_accept sv on : sv_bounds sv -> forall items texts, static_ok items = true ->
+Theorem static_accept sv on : sv_bounds sv -> (forall o, sv_off sv = Some o -> o mod 60 = 0) ->
+  forall items texts, static_ok items = true ->
   Forall2 (doc_item sv on) items texts ->
   exists ws, unambiguous_b (combine items texts) [] = Some ws.
 Proof.
-  intros Bsv. induction items as [|it r IH]; intros texts Hs HF; inversion HF as [|? t ? ts [Hd Hfr] Hr]; subst.
+  intros Bsv Hmin. induction items as [|it r IH]; intros texts Hs HF; inversion HF as [|? t ? ts [Hd Hfr] Hr]; subst.
   - exists []. reflexivity.
   - cbn [static_ok] in Hs. apply andb_prop in Hs. destruct Hs as [Hit Hsr].
     destruct (IH ts Hsr Hr) as (ws & Hws).
@@ -460,7 +478,7 @@ Proof.
         destruct (render_fix sv f) as [s| |] eqn:Er; try discriminate Hd. apply Some_inj in Hd. subst s.
         destruct (tfield_of_supported spec f Ef) as [Hsup Hspec]. rewrite <- Hspec.
         apply andb_prop in Hit. destruct Hit as [H1 H2].
-        apply (fix_accept sv f t rest Bsv Hsup Er Hv).
+        apply (fix_accept sv f t rest Bsv Hmin Hsup Er Hv).
         + intros Hn. rewrite Hn in H1. cbn [negb orb] in H1. apply A1. destruct (may it_digit r); [discriminate H1|reflexivity].
         + intros Hn. rewrite Hn in H2. cbn [negb orb] in H2. apply A3. destruct (may it_dot r); [discriminate H2|reflexivity].
       - discriminate Hd. }
@@ -717,13 +735,14 @@ Qed.
 (** * 7. every item has a documented rendering for every value of the kind *)
 Definition nfield_is_time (f : nfield) : bool :=
   match f with NHour | NHour12 | NMinute | NSecond | NNanos => true | _ => false end.
-Definition it_kind_ok (hd ht : bool) (it : Item) : bool :=
+Definition it_kind_ok (hd ht ho : bool) (it : Item) : bool :=
   match it with
   | Literal _ | Space _ => true
   | INumeric spec _ => match nfield_of spec with Some f => if nfield_is_time f then ht else hd | None => false end
   | IFixed spec =>
       match tfield_of spec with
       | Some TMonthAbbr | Some TMonthFull | Some TWdayAbbr | Some TWdayFull => hd
+      | Some TOff | Some TOffColon => ho
       | Some _ => ht
       | None => false
       end
@@ -752,19 +771,20 @@ Proof.
       change (10 ^ (9 - 9)) with 1. rewrite Z.div_1_r, Z.mul_1_r. reflexivity.
     + assert (digits = k) by lia. subst k. right. reflexivity.
 Qed.
-Lemma kind_no_time_item sv hd it : it_kind_ok hd false it = true -> item_frac sv it = None.
+Lemma kind_no_time_item sv hd ho it : it_kind_ok hd false ho it = true -> item_frac sv it = None.
 Proof.
   intros H. destruct it as [l|l|spec pad|spec|]; cbn [it_kind_ok item_frac] in *; try reflexivity.
   - destruct spec; try reflexivity. cbn in H. discriminate H.
   - destruct (tfield_of spec) as [f|]; [|reflexivity]. destruct f; try reflexivity; discriminate H.
 Qed.
 
-Lemma static_render sv on (hd ht : bool) : (hd = true -> sv_dn sv <> None) -> (ht = true -> sv_sod sv <> None) ->
-  forall items, static_ok items = true -> forallb (it_kind_ok hd ht) items = true ->
+Lemma static_render sv on (hd ht ho : bool) : (hd = true -> sv_dn sv <> None) -> (ht = true -> sv_sod sv <> None) ->
+  (ho = true -> sv_off sv <> None) ->
+  forall items, static_ok items = true -> forallb (it_kind_ok hd ht ho) items = true ->
   Forall (fun it => item_frac sv it = None \/ item_frac sv it = on) items ->
   exists texts, Forall2 (doc_item sv on) items texts.
 Proof.
-  intros Hhd Hht. induction items as [|it r IH]; intros Hs Hk Hf; [exists []; constructor|].
+  intros Hhd Hht Hho. induction items as [|it r IH]; intros Hs Hk Hf; [exists []; constructor|].
   cbn [static_ok forallb] in Hs, Hk. apply andb_prop in Hs. destruct Hs as [Hit Hsr]. apply andb_prop in Hk. destruct Hk as [Hki Hkr].
   inversion Hf as [|? ? Hfi Hfr]; subst.
   destruct (IH Hsr Hkr Hfr) as (ts & HF).
@@ -785,6 +805,7 @@ Proof.
       destruct f; try discriminate Hsup;
         try (destruct (sv_dn sv) as [dn|]; [|exfalso; apply (Hhd Hki); reflexivity]);
         try (destruct (sv_sod sv) as [s|]; [|exfalso; apply (Hht Hki); reflexivity]);
+        try (destruct (sv_off sv) as [o|]; [|exfalso; apply (Hho Hki); reflexivity]);
         try (destruct (ymd_of_dn dn) as [[yy m] dd]); eexists; reflexivity.
     - discriminate Hit. }
   destruct Hex as (t & Ht). exists (t :: ts). constructor; [split; assumption|exact HF].
@@ -877,7 +898,7 @@ Qed.
 
 (** NaiveDate *)
 Theorem static_date_roundtrip items :
-  static_ok items = true -> forallb (it_kind_ok true false) items = true -> static_date_ok items = true ->
+  static_ok items = true -> forallb (it_kind_ok true false false) items = true -> static_date_ok items = true ->
   forall y o d, Proofs.C08Sweeps.repr y o d ->
   exists text,
     Model.Format.write_items (Model.Format.fa_of_date d) items [] = Model.Format.fok text /\
@@ -885,9 +906,9 @@ Theorem static_date_roundtrip items :
 Proof.
   intros Hs Hk Hc y o d H. set (sv := sv_of_date (dn_of_yo y o)).
   pose proof (args_bounds _ sv (args_view_date y o d H) ltac:(cbn; lia)) as Bsv.
-  destruct (static_render sv None true false ltac:(intros _; discriminate) ltac:(intros Hx; discriminate Hx) items Hs Hk) as (texts & HF).
-  { rewrite Forall_forall. intros it Hin. left. rewrite forallb_forall in Hk. exact (kind_no_time_item sv true it (Hk it Hin)). }
-  destruct (static_accept sv None Bsv items texts Hs HF) as (ws & HU).
+  destruct (static_render sv None true false false ltac:(intros _; discriminate) ltac:(intros Hx; discriminate Hx) ltac:(intros Hx; discriminate Hx) items Hs Hk) as (texts & HF).
+  { rewrite Forall_forall. intros it Hin. left. rewrite forallb_forall in Hk. exact (kind_no_time_item sv true false it (Hk it Hin)). }
+  destruct (static_accept sv None Bsv ltac:(let Hq := fresh in intros ? Hq; discriminate Hq) items texts Hs HF) as (ws & HU).
   destruct (real_presence items texts ws (F2_length _ _ _ HF) HU) as [HP _].
   exists (concat texts).
   apply (general_date_roundtrip y o d items texts ws H HF HU).
@@ -897,7 +918,7 @@ Qed.
 (** NaiveTime: [k] is the precision class of the fraction items of the list (3, 6 or 9; any of them
     when there is none) *)
 Theorem static_time_roundtrip items k :
-  static_ok items = true -> forallb (it_kind_ok false true) items = true -> static_time_ok items = true ->
+  static_ok items = true -> forallb (it_kind_ok false true false) items = true -> static_time_ok items = true ->
   frac_class_ok k items = true -> k = 3 \/ k = 6 \/ k = 9 ->
   forall t, valid_time t ->
   exists text,
@@ -907,10 +928,10 @@ Proof.
   intros Hs Hk Hc Hfc Hk3 t Hvt. set (sv := sv_of_time t). set (on := on_of sv k).
   pose proof (args_bounds _ sv (args_view_time t Hvt) ltac:(cbn; lia)) as Bsv.
   assert (Hon : forall n, on = Some n -> 0 <= n <= 999999999) by (apply on_of_range; [cbn; lia|exact Hk3]).
-  destruct (static_render sv on false true ltac:(intros Hx; discriminate Hx) ltac:(intros _; discriminate) items Hs Hk) as (texts & HF).
+  destruct (static_render sv on false true false ltac:(intros Hx; discriminate Hx) ltac:(intros _; discriminate) ltac:(intros Hx; discriminate Hx) items Hs Hk) as (texts & HF).
   { rewrite Forall_forall. intros it Hin. unfold frac_class_ok in Hfc. rewrite forallb_forall in Hfc.
     exact (frac_class_item sv k it (Hfc it Hin)). }
-  destruct (static_accept sv on Bsv items texts Hs HF) as (ws & HU).
+  destruct (static_accept sv on Bsv ltac:(let Hq := fresh in intros ? Hq; discriminate Hq) items texts Hs HF) as (ws & HU).
   destruct (real_presence items texts ws (F2_length _ _ _ HF) HU) as [HP HN].
   destruct (general_time_roundtrip t on items texts ws Hvt Hon HF HU
               (time_comb_transfer _ _ Hc HP HN)) as (Hw & Hp & V4 & V5).
@@ -920,7 +941,7 @@ Qed.
 
 (** NaiveDateTime *)
 Theorem static_ndt_roundtrip items k :
-  static_ok items = true -> forallb (it_kind_ok true true) items = true ->
+  static_ok items = true -> forallb (it_kind_ok true true false) items = true ->
   static_date_ok items = true -> static_time_ok items = true ->
   frac_class_ok k items = true -> k = 3 \/ k = 6 \/ k = 9 ->
   forall y o d t, Proofs.C08Sweeps.repr y o d -> valid_time t ->
@@ -932,10 +953,10 @@ Proof.
   intros Hs Hk Hcd Hct Hfc Hk3 y o d t H Hvt. set (sv := sv_of_ndt (dn_of_yo y o) t). set (on := on_of sv k).
   pose proof (args_bounds _ sv (args_view_ndt y o d t H Hvt) ltac:(cbn; lia)) as Bsv.
   assert (Hon : forall n, on = Some n -> 0 <= n <= 999999999) by (apply on_of_range; [cbn; lia|exact Hk3]).
-  destruct (static_render sv on true true ltac:(intros _; discriminate) ltac:(intros _; discriminate) items Hs Hk) as (texts & HF).
+  destruct (static_render sv on true true false ltac:(intros _; discriminate) ltac:(intros _; discriminate) ltac:(intros Hx; discriminate Hx) items Hs Hk) as (texts & HF).
   { rewrite Forall_forall. intros it Hin. unfold frac_class_ok in Hfc. rewrite forallb_forall in Hfc.
     exact (frac_class_item sv k it (Hfc it Hin)). }
-  destruct (static_accept sv on Bsv items texts Hs HF) as (ws & HU).
+  destruct (static_accept sv on Bsv ltac:(let Hq := fresh in intros ? Hq; discriminate Hq) items texts Hs HF) as (ws & HU).
   destruct (real_presence items texts ws (F2_length _ _ _ HF) HU) as [HP HN].
   assert (HCd : date_comb_b y (fst (iso_of_dn (dn_of_yo y o))) (apply_ws ws parsed_new) = true).
   { rewrite (date_comb_ext _ _ _ _ HP). apply date_comb_mono. exact Hcd. }
@@ -948,7 +969,7 @@ Qed.
 (** * 9. the class is inhabited: the families of the other files and many more are members, by
     computation on the item list alone *)
 Definition ndt_static (k : Z) (items : list Item) : bool :=
-  static_ok items && forallb (it_kind_ok true true) items && static_date_ok items && static_time_ok items && frac_class_ok k items.
+  static_ok items && forallb (it_kind_ok true true false) items && static_date_ok items && static_time_ok items && frac_class_ok k items.
 Example static_members :
   ndt_static 9 NDT_T_FMT = true /\ ndt_static 9 NDT_SP_FMT = true /\
   (* %A, %d %B %Y %I:%M:%S%.3f %p *)
@@ -966,11 +987,11 @@ Example static_members :
   (* %H:%M%.3f : a fraction without the seconds is not sufficient *)
   ndt_static 3 (YMD_FMT ++ [Space [32]; num0 N_Hour; Literal [58]; num0 N_Minute; IFixed F_Nanosecond3]) = false /\
   (* NaiveDate / NaiveTime members *)
-  (static_ok YMD_FMT && forallb (it_kind_ok true false) YMD_FMT && static_date_ok YMD_FMT) = true /\
-  (static_ok YJ_FMT && forallb (it_kind_ok true false) YJ_FMT && static_date_ok YJ_FMT) = true /\
-  (static_ok ISOW_FMT && forallb (it_kind_ok true false) ISOW_FMT && static_date_ok ISOW_FMT) = true /\
-  (static_ok IMSP_FMT && forallb (it_kind_ok false true) IMSP_FMT && static_time_ok IMSP_FMT) = true /\
-  (static_ok (HMSF F_Nanosecond) && forallb (it_kind_ok false true) (HMSF F_Nanosecond) && static_time_ok (HMSF F_Nanosecond)
+  (static_ok YMD_FMT && forallb (it_kind_ok true false false) YMD_FMT && static_date_ok YMD_FMT) = true /\
+  (static_ok YJ_FMT && forallb (it_kind_ok true false false) YJ_FMT && static_date_ok YJ_FMT) = true /\
+  (static_ok ISOW_FMT && forallb (it_kind_ok true false false) ISOW_FMT && static_date_ok ISOW_FMT) = true /\
+  (static_ok IMSP_FMT && forallb (it_kind_ok false true false) IMSP_FMT && static_time_ok IMSP_FMT) = true /\
+  (static_ok (HMSF F_Nanosecond) && forallb (it_kind_ok false true false) (HMSF F_Nanosecond) && static_time_ok (HMSF F_Nanosecond)
    && frac_class_ok 9 (HMSF F_Nanosecond)) = true.
 Proof. vm_compute. repeat split. Qed.
 
@@ -989,7 +1010,7 @@ Definition items_of (fmt : bytes) : R (option (list Item)) :=
 
 Theorem class_date_parse_from_str fmt items :
   items_of fmt = Val (Some items) ->
-  static_ok items = true -> forallb (it_kind_ok true false) items = true -> static_date_ok items = true ->
+  static_ok items = true -> forallb (it_kind_ok true false false) items = true -> static_date_ok items = true ->
   forall y o d, Proofs.C08Sweeps.repr y o d ->
   exists text,
     Model.Format.delayed_display (Model.Format.fa_of_date d) (Model.Strftime.sf_new fmt) = Model.Format.fok text /\
@@ -1002,7 +1023,7 @@ Proof.
 Qed.
 Theorem class_time_parse_from_str fmt items k :
   items_of fmt = Val (Some items) ->
-  static_ok items = true -> forallb (it_kind_ok false true) items = true -> static_time_ok items = true ->
+  static_ok items = true -> forallb (it_kind_ok false true false) items = true -> static_time_ok items = true ->
   frac_class_ok k items = true -> k = 3 \/ k = 6 \/ k = 9 ->
   forall t, valid_time t ->
   exists text,
@@ -1016,7 +1037,7 @@ Proof.
 Qed.
 Theorem class_ndt_parse_from_str fmt items k :
   items_of fmt = Val (Some items) ->
-  static_ok items = true -> forallb (it_kind_ok true true) items = true ->
+  static_ok items = true -> forallb (it_kind_ok true true false) items = true ->
   static_date_ok items = true -> static_time_ok items = true ->
   frac_class_ok k items = true -> k = 3 \/ k = 6 \/ k = 9 ->
   forall y o d t, Proofs.C08Sweeps.repr y o d -> valid_time t ->
